@@ -316,8 +316,8 @@ pub fn run(tier: Tier, replay_file: Option<Value>) -> ! {
         }
         rep.finish();
     }
-    let depth = tier.pick(6, 8);
-    let max_jobs = tier.pick(3, 4);
+    let depth = tier.pick(6, 7);
+    let max_jobs = tier.pick(3, 3);
     let kinds: Vec<&str> = match tier {
         Tier::Quick => vec!["c", "e"],
         Tier::Thorough => vec!["s", "c", "p", "f", "e"],
